@@ -9,6 +9,8 @@ for f in glob.glob(os.path.join(V, "seeded", "first_contact_round*.json")):
         fc[s] = ("detected", "")
     for s, why in j.get("missed", {}).items():
         fc[s] = ("missed", why)
+    for s, why in j.get("not_measured", {}).items():
+        fc[s] = ("not measured", why)
 rows = []
 for mf in sorted(glob.glob(os.path.join(V, "seeded", "*", "meta.json"))):
     m = json.load(open(mf))
